@@ -111,6 +111,11 @@ class Prover:
             # callers reasoning by this contract would not see change
             alien = sorted({(cn, f) for (cn, f, was_model, existed) in ctx.field_writes
                             if not was_model and (cn, f) not in getattr(c, 'frame_fields', ())})
+            if ctx.static_writes:
+                self.report.add_obligation(f'{self.prop}/{label}/frame/path{k}', c.qualname, 'undecided', 'pyvc', 0.0,
+                                           'UNSUPPORTED frame clause: ' + '; '.join(sorted(set(ctx.static_writes))) +
+                                           ' (state that outlives the call and that the contract does not describe)')
+                continue
             if alien:
                 self.report.add_obligation(f'{self.prop}/{label}/frame/path{k}', c.qualname, 'undecided', 'pyvc', 0.0,
                                            'UNSUPPORTED frame clause: the function assigns ' + ', '.join(f'{cn}.{f}' for cn, f in alien) +
